@@ -40,6 +40,21 @@ CLAIMED = {
             "z3 sequence theory for '{%s}%s' formatting and dict lookup by equality; concrete service sets",
             "contract-based deductive verification: VCs over z3 strings from the live AST; case analysis of pre-states",
             "DESIGN.md section 4 C11"),
+    'C03': ("Unbounded proof of the sparse-to-contiguous index inserter _s2cmi over symbolic maps (rank-map invariant, "
+            "inductive invariant over the set of visited keys, quantified VCs discharged by z3 with a Skolem inverse); the "
+            "surrounding simple_dict_to_object / object_to_simple_dict round trip, the query-string parser and the "
+            "primitive response are bounded stand-ins (stated bounds, listed separately, not counted as proved).",
+            "dict iteration visits each key once; bounded parts: see evidence.coverage.bounded",
+            "contract-based deductive verification (loop invariant over z3 arrays) + labelled bounded stand-ins",
+            "DESIGN.md section 4 C03"),
+    'C17': ("Configuration-flow contracts on Spyne's side: safe constructor defaults read from the live signature; "
+            "__init__ proved to store every parser flag unchanged (symbolic flags); every path of every "
+            "create_in_document proved to hand each parse call a parser built in that call from exactly "
+            "self.parser_kwargs (callee models of lxml's factory and parse entry points); no store to parser_kwargs on the "
+            "request path (frame hook). lxml honouring the flags is assumed and audited by a canary corpus (bounded).",
+            "lxml/libxml2 honour the parser flags (audited, not proved); bounded time/memory clause not decided",
+            "contract-based deductive verification: configuration-flow VCs with callee models + frame hook",
+            "DESIGN.md section 4 C17"),
 }
 NOT_YET = {}
 for i in range(1, 19):
